@@ -45,6 +45,12 @@ def bounds(chk, fl, qual, args, rule):
 
 def run(chk):
     idx = chk.idx
+    # the overall value that an assertion *records* is the one its test returned (C09.R1): re-deriving it from the history
+    # (min_p) is the random-order rule applied to a test that was told otherwise
+    from . import c09 as _c09
+    _n0 = len(chk.obs)
+    chk.borrow(_c09.r_set_p_values, {"C09.R1": "C11.R3"})
+    chk.obs = chk.obs[:_n0] + [o for o in chk.obs[_n0:] if o.rule != "C11.R3" or o.key in ("result-stored-verbatim", "no-other-store")]
     R.rule_ctor_signature(chk, "C11.R3")  # (random_order reaches the tests only if it is bound to what the caller meant)
     R.rule_stateless(chk, "C11.R6")  # first: its refutations stand even if a later rule cannot read the code
     reg = nnm.registry(idx)
